@@ -335,6 +335,10 @@ def check_history(case, sub="history"):
             site = "replace_op"
         elif op == "unwrap":
             wrappers = [x for x in sorted(M.nodes()) if M.desc[x][0] == "W"]
+            # node ids are handed out in the order in which the circuit walks its wrapper index
+            listed = [x for x in circ.node_dict.get("OneQubitGateWrapper", []) if x in wrappers]
+            if sorted(listed) == wrappers:
+                wrappers = listed
             before = set(circ.dag.nodes)
             guarded(sub, "plain", circ.unwrap_nodes)
             # model: each wrapper replaced on its wire by its gates in execution order (last listed first)
